@@ -224,7 +224,14 @@ def collect(
     df = table >> export(Polars(lazy=False))
 
     if not keep_col_refs:
-        return Table(df)
+        new = Table(df)
+        # the grouping state survives `collect` (only visible columns are kept by `collect`)
+        group_names = [
+            table._cache.uuid_to_name[uid] for uid in table._cache.partition_by if uid in table._cache.uuid_to_name
+        ]
+        if group_names:
+            new = new >> group_by(*group_names)
+        return new
 
     # TODO: keep_hidden_cols option
 
